@@ -117,6 +117,13 @@ def AJob.count (j : AJob) (o : Outcome) : Nat := (j.tasks.filter (·.st == o)).l
 
 /-! ### producible journals -/
 
+/-- every dependency is an earlier task of this submit or a task of the job, never the task itself -/
+def graphDepsOk (have_ : List Nat) : (earlier : List Nat) → List GraphTask → Bool
+  | _, [] => true
+  | earlier, t :: ts =>
+    t.deps.all (fun d => d != t.id && (earlier.contains d || have_.contains d)) &&
+    graphDepsOk have_ (t.id :: earlier) ts
+
 /-- `desc` is a submit the server accepts into a job whose current task ids are `have`: what `validate_submit`
 checks, plus pairwise distinct ids (`attach_submit` asserts it), valid resource indices and (arrays) a positive
 step and either no entries or one entry per id. -/
@@ -127,11 +134,7 @@ def submitOk (have_ : List Nat) : TaskDesc → Bool
     (match entries with | none => true | some n => n == ids.iter.length)
   | .graph tasks =>
     tasks.all (fun t => !have_.contains t.id && t.rqOk) && decide (tasks.map (·.id)).Nodup &&
-    -- every dependency is an earlier task of this submit or a task of the job, never the task itself
-    (List.range tasks.length).all fun k =>
-      match tasks[k]? with
-      | some t => t.deps.all fun d => d != t.id && (((tasks.take k).map (·.id)).contains d || have_.contains d)
-      | none => true
+    graphDepsOk have_ [] tasks
 
 def taskIs (s : AState) (id : Nat × Nat) (p : ATask → Bool) : Bool :=
   match alGet s.jobs id.1 with
@@ -175,15 +178,54 @@ def Producible (J : List Record) : Prop := producibleFrom {} J = true
 instance : Decidable (Producible J) := inferInstanceAs (Decidable (_ = true))
 
 /-- the extra hypothesis that excludes defect F9: no `TaskFailed` for a task that was never started -/
+def failOk (s : AState) : Record → Bool
+  | .taskFailed job task => taskIs s (job, task) fun a => a.inst.isSome
+  | _ => true
+
 def noFailBeforeStartFrom (s : AState) : List Record → Bool
   | [] => true
-  | r :: rs =>
-    (match r with
-     | .taskFailed job task => taskIs s (job, task) fun a => a.inst.isSome
-     | _ => true) && noFailBeforeStartFrom (meaningStep s r) rs
+  | r :: rs => failOk s r && noFailBeforeStartFrom (meaningStep s r) rs
 
 def NoFailBeforeStart (J : List Record) : Prop := noFailBeforeStartFrom {} J = true
 
 instance : Decidable (NoFailBeforeStart J) := inferInstanceAs (Decidable (_ = true))
+
+
+/-! ### what C10 compares: the restored server state against `meaning` -/
+
+/-- a restored job as C10 reads it: id, open flag, max_fails, number of submits, task table with outcomes -/
+def RestoredJob.view (j : RestoredJob) : Nat × Bool × Option Nat × Nat × List (Nat × Outcome) :=
+  (j.id, j.isOpen, j.maxFails, j.nSubmits, j.tasks.map fun t => (t.1, t.2.outcome))
+
+def AJob.view (id : Nat) (j : AJob) : Nat × Bool × Option Nat × Nat × List (Nat × Outcome) :=
+  (id, j.isOpen, j.maxFails, j.nSubmits, j.tasks.map fun a => (a.id, a.st))
+
+/-- every task the restored `TaskSubmit` batches hand to the core: (job, task, dependencies), in order -/
+def batchPending (bs : List Batch) : List (Nat × Nat × List Nat) :=
+  bs.flatMap fun b => b.tasks.map fun t => (b.job, t.1, t.2)
+
+/-- every task without recorded outcome, with its original dependencies minus the completed ones -/
+def AState.pending (A : AState) : List (Nat × Nat × List Nat) :=
+  A.jobs.flatMap fun ja => ja.2.pending.map fun p => (ja.1, p.task, p.deps)
+
+/-- the job counters that agree with the task states (nothing is running right after a restart) -/
+def AJob.counters (j : AJob) : JCounters :=
+  ⟨0, j.count .finished, j.count .failed, j.count .canceled, j.count .aborted⟩
+
+/-- jobs, open flags, outcomes, pending tasks with remaining deps, queues, id counters, uid -/
+structure RefinesCore (R : Restorer) (X : Restored) (A : AState) : Prop where
+  jobs : X.jobs.map RestoredJob.view = A.jobs.map fun ja => ja.2.view ja.1
+  pending : batchPending X.batches = A.pending
+  queues : X.queues.map (·.1) = A.queues.map (·.1)
+  ids : counters R = ⟨A.maxJob + 1, A.maxWorker + 1, A.maxQueue + 1⟩
+  uid : R.uid = A.uid
+
+/-- "job counters agree with the task states" for the jobs selected by `p` -/
+def RefinesCounters (p : AJob → Bool) (X : Restored) (A : AState) : Prop :=
+  ∀ j ∈ X.jobs, ∀ aj, alGet A.jobs j.id = some aj → p aj = true → j.counters = aj.counters
+
+/-- the full-strength C10 refinement statement for one journal -/
+def RestoreRefines (J : List Record) : Prop :=
+  ∃ R X, restore J = .ok (R, X) ∧ RefinesCore R X (meaning J) ∧ RefinesCounters (fun _ => true) X (meaning J)
 
 end HqModel.Journal
